@@ -218,7 +218,7 @@ def run_life(c, P):
     w.n_addrs = P.get('n_addrs', 1)
     if P.get('fault'):
         F = P['fault']
-        w.fault_hook = env.SymFaults(F['ops'], F.get('kinds', ['oserror']), F.get('max', 1), F.get('skip'))
+        w.fault_hook = env.SymFaults(F['ops'], F.get('kinds', ['oserror']), F.get('max', 1), F.get('skip'), sticky=F.get('sticky', ()))
     w.max_waits = P.get('max_waits', 60)
     ws = L.WebSocket(P.get('url', 'ws://example.com/'))
     app = App(c, w, P)
@@ -281,6 +281,14 @@ def drive_with_mechanism(w, ws, ck, app, mech):
     if mech == 'gen.close':
         rec = hconn.drive(w, ws, ck, app)
         if getattr(rec, 'abandoned', False):
+            rec.gen.close()
+        return rec
+    if mech == 'reconnect-then-close':
+        # the usual retry idiom: connect() is called again on the same object BEFORE the abandoned generator is
+        # finalised (events = ws.connect() rebinding, or an explicit old.close() afterwards)
+        rec = hconn.drive(w, ws, ck, app)
+        if getattr(rec, 'abandoned', False):
+            rec.next_gen = ws.connect(**ck)        # not iterated: no new socket yet
             rec.gen.close()
         return rec
     if mech == 'raise':
@@ -651,6 +659,14 @@ def check_c09(c, w, rec, app, ws, errors, end, P):
     if names[-1] == 'disconnected' and 'connected' not in names:
         c.fail('C09: Disconnected without Connected')
     pre_connect_fault = any(op in ('getaddrinfo', 'socket', 'connect') for op, n, k in inj)
+    # a failed read / selector wait is the end of the transport: nothing but the terminal event may follow
+    for li, e in enumerate(w.log):
+        if e[0] == 'fault' and e[1] in ('recv', 'wait'):
+            later = [x[2] for x in w.log[li + 1:] if x[0] == 'event']
+            if later != ['disconnected'] and later != ['connect_fail']:
+                c.fail('C09: transport failure in %s was ignored: events after it are %s' % (e[1], later),
+                       sig='C09: transport failure in %s ignored' % e[1])
+            break
     # graceful flag: False whenever neither side had started the closing handshake
     frames = wire_frames(c, w, tag='C09')
     client_close = any(f['opcode'] == refmodel.CLOSE for f in frames)
